@@ -197,21 +197,19 @@ def run(ctx: core.Ctx):
         states = scriptgen.tlc_programs(ctx, ["Script_n3.cfg", "Script_loops4t.cfg", "Script_ops3.cfg", "Script_pasg.cfg", "Script_lvar.cfg", "Script_while.cfg"], "Script_sim.cfg", sim_num=8000, sim_depth=16)
     else:
         states = scriptgen.tlc_programs(ctx, ["Script_n3.cfg", "Script_loops4t.cfg", "Script_iffor4t.cfg", "Script_ops3.cfg", "Script_pasg.cfg", "Script_lvar.cfg", "Script_while7.cfg", "Script_n4.cfg"], "Script_sim.cfg", sim_num=30000, sim_depth=18)
-    vac = core.run_tlc("Script", "Script_vacuity.cfg", timeout=900)
-    if vac.ok:
-        raise core.MachineryError("vacuity: no accepted program with an if inside a for loop is reachable")
-    old = core.run_tlc("Script", "Script_pasg_old.cfg", timeout=900)
-    if old.ok:
-        raise core.MachineryError("vacuity: the sequential translation of a parallel assignment (fixed defect) is not reachable in Script_pasg_old.cfg")
-    old = core.run_tlc("Script", "Script_lvar_old.cfg", timeout=900)
-    if old.ok:
-        raise core.MachineryError("vacuity: a for variable read after its loop (fixed defect) is not reachable in Script_lvar_old.cfg")
-    old = core.run_tlc("Script", "Script_kw_old.cfg", timeout=900)
-    if old.ok:
-        raise core.MachineryError("vacuity: a variable read only inside a keyword-argument expression (fixed defect) is not reachable in Script_kw_old.cfg")
-    old = core.run_tlc("Script", "Script_while_old.cfg", timeout=900)
-    if old.ok:
-        raise core.MachineryError("vacuity: a while loop whose trailing break ignores the loop condition (fixed defect) is not reachable in Script_while_old.cfg")
+    # witness configurations (each must be VIOLATED: the property can fail / a repaired defect is reachable in the bounded model)
+    from concurrent.futures import ThreadPoolExecutor
+
+    witnesses = [("Script_vacuity.cfg", "vacuity: no accepted program with an if inside a for loop is reachable"),
+                 ("Script_pasg_old.cfg", "vacuity: the sequential translation of a parallel assignment (fixed defect) is not reachable in Script_pasg_old.cfg"),
+                 ("Script_lvar_old.cfg", "vacuity: a for variable read after its loop (fixed defect) is not reachable in Script_lvar_old.cfg"),
+                 ("Script_kw_old.cfg", "vacuity: a variable read only inside a keyword-argument expression (fixed defect) is not reachable in Script_kw_old.cfg"),
+                 ("Script_while_old.cfg", "vacuity: a while loop whose trailing break ignores the loop condition (fixed defect) is not reachable in Script_while_old.cfg")]
+    with ThreadPoolExecutor(max_workers=5) as ex:
+        wres = list(ex.map(lambda w: core.run_tlc("Script", w[0], timeout=900, workers=3), witnesses))
+    for (cfg, msg), r in zip(witnesses, wres):
+        if r.ok:
+            raise core.MachineryError(msg)
     ctx.set("spec_programs", len(states))
     # stage 1 (cheap, wide): the structure the real converter emits (which variables each If exports / each Loop
     # carries) against the selections Script.tla computes, for EVERY derived program the model accepts.
